@@ -204,6 +204,13 @@ macro_rules | `(tactic| good_bind) => `(tactic| (refine GoodP.bind (P := fun _ =
 syntax "good" : tactic
 macro_rules | `(tactic| good) => `(tactic| repeat' (first | good_leaf | good_bind | split))
 
+theorem good_emitConstant (pos : Pos) (v : CVal) : Good (emitConstant pos v) := by
+  unfold emitConstant; good
+
+theorem good_emitFnConstant (pos : Pos) (fn : CFn) (nfree : Nat) (hf : FnOK fn) : Good (emitFnConstant pos fn nfree) := by
+  have := good_addFnConstant fn hf
+  unfold emitFnConstant; good
+
 theorem good_findSymbolSelf (name : String) : Good (findSymbolSelf name) := by
   unfold findSymbolSelf; good
 
